@@ -3,10 +3,9 @@
 package main
 
 import (
-	"sync"
+	"context"
 	"crypto/aes"
 	"crypto/cipher"
-	"context"
 	"encoding/base64"
 	"encoding/hex"
 	"fmt"
@@ -15,6 +14,7 @@ import (
 	"net/http/httptest"
 	"strconv"
 	"strings"
+	"sync"
 	"testing"
 	"time"
 
